@@ -26,6 +26,14 @@ ASSUMPTIONS = ["a mux without live input is booked (with all-zero values) under 
 
 def gen(rng, i, tier):
     big = tier == "thorough"
+    if rng.random() < 0.25:
+        # mux between rails with a random live/dead input pattern (layouts shared with C05)
+        from . import c05
+
+        lay = c05.layout(rng, rng.choice([2, 3, 4]))
+        lay["rails"] = True
+        spec = c05.realise(lay, [rng.choice([0, 1]) for _ in range(lay["k"])])
+        return {"spec": spec, "energy": False, "ta": 25.0, "phase_arg": rng.random() < 0.2}
     norails = rng.random() < 0.12
     spec = G.gen_system(
         rng, n_comp=(3, 26 if big else 14), n_src=(1, 3) if rng.random() < 0.5 else (1, 1), mux=0.45,
